@@ -401,6 +401,9 @@ fn run_index(ctx: &Ctx, kind: &'static str, idx: usize, rng: &mut Rng) -> Result
         }
     }
     let mut burst_left = 0usize;
+    // operation forced next (used to persist + reload right after an add that overflowed a full section:
+    // the entry appended by the flush-and-retry path must reach the disk like any other)
+    let mut force_next: Option<&'static str> = None;
 
     for opi in 0..n_ops {
         let fill_before = r.fill();
@@ -408,7 +411,9 @@ fn run_index(ctx: &Ctx, kind: &'static str, idx: usize, rng: &mut Rng) -> Result
         let cond = r.cond(fill_before);
         let at_full = target.is_some() && fill_before >= SECTION_CAP;
         // ---- choose the operation
-        let op: &'static str = if long {
+        let op: &'static str = if let Some(f) = force_next.take() {
+            f
+        } else if long {
             if at_full && burst_left == 0 && rng.chance(9, 10) {
                 burst_left = rng.urange(3, 7);
             }
@@ -485,6 +490,10 @@ fn run_index(ctx: &Ctx, kind: &'static str, idx: usize, rng: &mut Rng) -> Result
                         r.m.pending[b] = true;
                         if at_full {
                             r.h.stats.add("index.add_entry_on_full_section(flush+retry)", 1);
+                            if rng.chance(1, 2) {
+                                force_next = Some("reload_saved");
+                                r.h.stats.add("index.save+reload_right_after_overflow_add", 1);
+                            }
                         }
                         if let Some((kind, at)) = r.probe_kind(&k, rng) {
                             r.h.violation(format!("C05|add_entry|returns-ok-but-{kind}|{cond}"), "add_entry returned Ok but a lookup does not show the inserted location", json!({"probe": at}));
